@@ -18,7 +18,7 @@
          operations Add / Flush / DropNotFlushed / Restart (= vecfc.NewIndex + Reset over the same DB).
    Definitions only; proofs in proofs/VecPersistProofs.v. *)
 From Coq Require Import List Arith NArith ZArith Bool.
-From LV Require Import lib.Bytes model.Codec model.VecIndex model.Wlru.
+From LV Require Import lib.Bytes model.Codec model.VecIndex model.Wlru model.PosRlp.
 Import ListNotations.
 Open Scope N_scope.
 
@@ -138,3 +138,110 @@ Definition m_step (m : list (N * list N) * list (N * list N)) (o : top) : option
   | TFlush => (None, (cur, cur))
   | TDrop => (None, (fl, fl))
   | TReopen _ _ => (None, (fl, fl)) end.
+
+(* ---------- Round 4: the composed engine ----------
+   The persisted engine together with everything that lives in the Go Index OBJECT: the HB/LA write-through
+   caches (layer B, per-key reads and writes), the ForklessCause LRU, and "NotFlushedPairs != 0".
+   DropNotFlushed and a restart are different transformers:
+     drop    : vi.bi = nil; if NotFlushedPairs != 0 { unflushed writes dropped; HB/LA caches purged };
+               the ForklessCause LRU is KEPT (vecfc/index.go onDropNotFlushed does not touch it);
+     restart : a new Index object: all three caches are new (any configured capacities), vi.bi = nil, the
+               flushable wrapper is new (no unflushed writes), same validators, same flushed database. *)
+(* forklessCause / GatherFrom once the vectors have been fetched *)
+Definition fc_on (ws : list N) (q : N) (s : vidx) (av : list hbs) (bv : list N) (bbr : nat) : bool :=
+  if at_least_one_fork s && is_fork (hb_get av bbr) then false else
+  let counted := fold_left (fun cnt br =>
+       let bl := la_get bv br in let ah := hb_get av br in
+       if (bl <=? fst ah) && negb (bl =? 0) && negb (is_fork ah)
+       then set_nth false cnt (nth br (br_cr s) 0%nat) true else cnt)
+     (List.seq 0 (nbr s)) (repeat false (nvals s)) in
+  q <=? wsum ws counted.
+Definition merged_on (s : vidx) (av : list hbs) : list hbs :=
+  if at_least_one_fork s then
+    map (fun brs => fold_left (fun hi br => if is_fork hi then hi else
+                      let x := hb_get av br in if is_fork x then x else if fst hi <? fst x then x else hi) brs (0,0)) (by_cr s)
+  else map (fun i => hb_get av i) (List.seq 0 (nvals s)).
+
+Record ceng := { ce_p : pidx; ce_dirty : bool; ce_hbc : bcache; ce_lac : bcache; ce_fc : fcache }.
+Definition ce_hb_t (ce : ceng) : tcache := {| t_fl := pd_hb (p_db (ce_p ce)); t_cur := pd_hb (p_cur (ce_p ce)); t_c := ce_hbc ce |}.
+Definition ce_la_t (ce : ceng) : tcache := {| t_fl := pd_la (p_db (ce_p ce)); t_cur := pd_la (p_cur (ce_p ce)); t_c := ce_lac ce |}.
+Definition ce_view (ce : ceng) : vidx := p_view (ce_p ce).
+(* InitBranchesInfo *)
+Definition p_initbi (p : pidx) : pidx :=
+  {| p_n := p_n p; p_bi := Some (p_binfo p); p_db := p_db p; p_evs_fl := p_evs_fl p; p_cur := p_cur p; p_evs := p_evs p |}.
+Definition ce_new (n : nat) (fccap : nat) (c0 c1 : bcache) : ceng :=
+  {| ce_p := p_init n; ce_dirty := false; ce_hbc := c0; ce_lac := c1; ce_fc := fcache_new fccap |}.
+
+(* the LowestAfter entries an Add wrote (DFS updates, oldest first, then the new event's own vector) *)
+Definition la_new (s s' : vidx) : list (N * list N) := rev (firstn (length (la s') - length (la s)) (la s')).
+Definition t_sets (enc : list N -> list N) (l : list (N * list N)) (t : tcache) : tcache :=
+  fold_left (fun t kv => t_set (fst kv) (enc (snd kv)) t) l t.
+(* Add: vectors are computed from the current view and written key by key through the caches *)
+Definition ce_add (ce : ceng) (e : event) : bool * ceng :=
+  let p := ce_p ce in
+  match VecIndex.add (p_view p) e with
+  | Some s' =>
+    let hbt := match hb s' with (k, v) :: _ => t_set k (enc_hb v) (ce_hb_t ce) | [] => ce_hb_t ce end in
+    let lat := t_sets enc_la (la_new (p_view p) s') (ce_la_t ce) in
+    let brt := match ebr s' with (k, b) :: _ => aput k (enc_br b) (pd_br (p_cur p)) | [] => pd_br (p_cur p) end in
+    (true, {| ce_p := {| p_n := p_n p; p_bi := Some (bi_of s'); p_db := p_db p; p_evs_fl := p_evs_fl p;
+                         p_cur := {| pd_hb := t_cur hbt; pd_la := t_cur lat; pd_br := brt; pd_bi := pd_bi (p_cur p) |};
+                         p_evs := evs s' |};
+              ce_dirty := true; ce_hbc := t_c hbt; ce_lac := t_c lat; ce_fc := ce_fc ce |})
+  | None => (* the harness / abft protocol: a failed Add is followed by DropNotFlushed *)
+    (false, {| ce_p := p_drop p; ce_dirty := false;
+               ce_hbc := if ce_dirty ce then fst (Wlru.purge (ce_hbc ce)) else ce_hbc ce;
+               ce_lac := if ce_dirty ce then fst (Wlru.purge (ce_lac ce)) else ce_lac ce; ce_fc := ce_fc ce |}) end.
+Definition ce_flush (ce : ceng) : ceng :=
+  {| ce_p := p_flush (ce_p ce); ce_dirty := false; ce_hbc := ce_hbc ce; ce_lac := ce_lac ce; ce_fc := ce_fc ce |}.
+Definition ce_drop (ce : ceng) : ceng :=
+  {| ce_p := p_drop (ce_p ce); ce_dirty := false;
+     ce_hbc := if ce_dirty ce then fst (Wlru.purge (ce_hbc ce)) else ce_hbc ce;
+     ce_lac := if ce_dirty ce then fst (Wlru.purge (ce_lac ce)) else ce_lac ce; ce_fc := ce_fc ce |}.
+Definition ce_restart (fccap : nat) (c0 c1 : bcache) (ce : ceng) : ceng :=
+  {| ce_p := p_restart (ce_p ce); ce_dirty := false; ce_hbc := c0; ce_lac := c1; ce_fc := fcache_new fccap |}.
+
+(* BranchesInfo and validator count only (what forklessCause / GatherFrom need besides the vectors) *)
+Definition p_shape (p : pidx) : vidx :=
+  let b := p_binfo p in
+  {| nvals := p_n p; br_last := bi_last b; br_cr := bi_cr b; by_cr := bi_by b; hb := []; la := []; ebr := []; evs := [] |}.
+(* Index.ForklessCause: LRU; on a miss InitBranchesInfo, GetHighestBefore(a) and GetLowestAfter(b) through the
+   caches, GetEventBranchID(b) from the table; nil vector = crit, answer false; the answer is remembered *)
+Definition ce_query (ws : list N) (q : N) (ce : ceng) (a b : N) : bool * ceng :=
+  match fcache_get (a, b) (ce_fc ce) with
+  | (Some r, c') => (r, {| ce_p := ce_p ce; ce_dirty := ce_dirty ce; ce_hbc := ce_hbc ce; ce_lac := ce_lac ce; ce_fc := c' |})
+  | (None, _) =>
+    let p1 := p_initbi (ce_p ce) in
+    let '(oa, hbt) := t_get a (ce_hb_t ce) in
+    let '(ob, lat) := match oa with Some _ => t_get b (ce_la_t ce) | None => (None, ce_la_t ce) end in
+    let r := match oa, ob, alookup b (pd_br (p_cur p1)) with
+             | Some ab, Some bb, Some brb => fc_on ws q (p_shape p1) (dec_hb ab) (dec_la bb) (dec_br brb)
+             | _, _, _ => false end in
+    (r, {| ce_p := p1; ce_dirty := ce_dirty ce; ce_hbc := t_c hbt; ce_lac := t_c lat; ce_fc := fcache_add (a, b) r (ce_fc ce) |}) end.
+(* GetMergedHighestBefore *)
+Definition ce_merged (ce : ceng) (a : N) : list hbs * ceng :=
+  let p1 := p_initbi (ce_p ce) in
+  let '(oa, hbt) := t_get a (ce_hb_t ce) in
+  (match oa with Some ab => merged_on (p_shape p1) (dec_hb ab) | None => [] end,
+   {| ce_p := p1; ce_dirty := ce_dirty ce; ce_hbc := t_c hbt; ce_lac := ce_lac ce; ce_fc := ce_fc ce |}).
+
+(* ONE history type *)
+Inductive cop := CAdd (e : event) | CQuery (a b : N) | CFlush | CDrop | CRestart (fccap : nat) (mw : N) (ms : Z).
+Definition cout := (N * N * bool * list (N * event))%type.
+Definition cstep (ws : list N) (q : N) (st : ceng * list cout) (o : cop) : ceng * list cout :=
+  let '(ce, out) := st in
+  match o with
+  | CAdd e => (snd (ce_add ce e), out)
+  | CQuery a b => let '(r, ce') := ce_query ws q ce a b in (ce', (a, b, r, evs (ce_view ce)) :: out)
+  | CFlush => (ce_flush ce, out)
+  | CDrop => (ce_drop ce, out)
+  | CRestart cap mw ms => (match Wlru.new mw ms with Some c0 => ce_restart cap c0 c0 ce | None => ce end, out) end.
+
+(* the bytes of the BranchesInfo record (key "c" of table "B"): rlp.EncodeToBytes of the struct
+   { BranchIDLastSeq []idx.Event; BranchIDCreatorIdxs []idx.Validator; BranchIDByCreators [][]idx.Validator }.
+   Encoder only (reuses the RLP primitives of model/PosRlp.v); tied to go-ethereum/rlp by the harness op DB;
+   the decoder is glue (the record is typed in pdb). *)
+Definition rlp_uints (l : list N) : list N := rlp_list (flat_map rlp_uint l).
+Definition enc_bi (b : binfo) : list N :=
+  rlp_list (rlp_uints (bi_last b) ++ rlp_uints (map N.of_nat (bi_cr b)) ++
+            rlp_list (flat_map (fun l => rlp_uints (map N.of_nat l)) (bi_by b))).
